@@ -44,6 +44,9 @@ def observe_case(a, th, tracked, sample_lists, cmap, tmap, tscale, rng):
         ob = observe_tree(tree, cmap)
         ob["num_roots"] = int(tree.num_roots)
         ob["muts"] = [int(m.id) for m in tree.mutations()]
+        # every mutation as the tree / its site / the tree sequence report it: [id, site, node, edge]
+        ob["mutrecs"] = [[int(m.id), int(m.site), int(m.node), int(m.edge)] for m in tree.mutations()]
+        ob["sitemuts"] = [[int(m.id), int(s.id), int(m.node), int(m.edge)] for s in tree.sites() for m in s.mutations]
         ob["num_mutations"] = int(tree.num_mutations)
         ob["mrca"] = [[int(tree.mrca(u, v)) for v in range(N)] for u in range(N)]
         ob["depth"] = [int(tree.depth(u)) for u in range(N)]
@@ -68,6 +71,7 @@ def observe_case(a, th, tracked, sample_lists, cmap, tmap, tscale, rng):
                             out=[int(e.id) for e in eo], inn=[int(e.id) for e in ei]))
         return out
     seq = dict(
+        mutation_edges=[[int(m.id), int(m.site), int(m.node), int(m.edge)] for m in ts.mutations()],
         num_trees=int(ts.num_trees),
         breakpoints=[cmap.back(x) for x in ts.breakpoints()],
         rev=[int(t.index) for t in reversed(ts.trees())],
